@@ -18,6 +18,7 @@
 (***************************************************************************)
 EXTENDS Naturals, Integers, Sequences, FiniteSets, TLC
 CONSTANTS Progs, Cbs, Reenters, Lockeds, Timeouts,
+          CbThrows,           \* set of BOOLEAN: may an invocation of the callback throw (C20; the exception is swallowed by destroyObjects)
           ClearOutsideLock,   \* knob: the local vector is cleared (destructors run) after the unlock (code as read)
           SoleOwnerOnly       \* knob: only elements without any other owner are selected (code as read)
 VARIABLES prog, cfg, vec, ext, alive, dl, th, gh, ev
@@ -28,7 +29,7 @@ Threads == 1..Len(prog)
 NoEv == [t |-> 0, k |-> "init", o |-> "", i |-> 0, v |-> 0, w |-> 0]
 E(t, k, o, i, v, w) == [t |-> t, k |-> k, o |-> o, i |-> i, v |-> v, w |-> w]
 Obj(t) == 4 * (t - 1) + th[t].opi
-Th0 == [pc |-> "idle", op |-> 0, opi |-> 1, res |-> 0, mine |-> 0, sel |-> <<>>, idx |-> 1, back |-> "", o |-> 0]
+Th0 == [pc |-> "idle", op |-> 0, opi |-> 1, res |-> 0, mine |-> 0, sel |-> <<>>, idx |-> 1, back |-> "", o |-> 0, threw |-> FALSE]
 Init0(p, c) == [prog |-> p, cfg |-> c, vec |-> <<>>, ext |-> {}, alive |-> {}, dl |-> 0, th |-> [t \in 1..Len(p) |-> Th0],
                 gh |-> [destroyed |-> {}, dbl |-> FALSE, owned |-> FALSE, underlock |-> FALSE, cbd |-> {}, cbbad |-> FALSE, added |-> {}],
                 ev |-> NoEv]
@@ -36,7 +37,8 @@ InitWith(p, c) == LET z == Init0(p, c) IN
     prog = z.prog /\ cfg = z.cfg /\ vec = z.vec /\ ext = z.ext /\ alive = z.alive /\ dl = z.dl /\ th = z.th /\ gh = z.gh /\ ev = z.ev
 ResetTo(p, c) == LET z == Init0(p, c) IN
     prog' = z.prog /\ cfg' = z.cfg /\ vec' = z.vec /\ ext' = z.ext /\ alive' = z.alive /\ dl' = z.dl /\ th' = z.th /\ gh' = z.gh /\ ev' = z.ev
-Init == \E p \in Progs, cb \in Cbs, re \in Reenters, lk \in Lockeds : InitWith(p, [cb |-> cb, reenter |-> re, locked |-> lk])
+Init == \E p \in Progs, cb \in Cbs, re \in Reenters, lk \in Lockeds, ct \in CbThrows :
+           InitWith(p, [cb |-> cb, reenter |-> re, locked |-> lk, cbthrow |-> ct /\ cb])
 Upd(t, r) == th' = [th EXCEPT ![t] = r]
 Pc(t, l) == [th[t] EXCEPT !.pc = l]
 UC == UNCHANGED <<prog, cfg>>
@@ -63,12 +65,12 @@ Call(t) ==
          /\ ev' = E(t, "call", OpName[o + 1], 0, IF o \in {0, 4} THEN id ELSE 0, IF o = 0 /\ th[t].mine = 0 THEN 1 ELSE 0)
     /\ UNCHANGED <<prog, cfg, vec, dl>>
 Ret(t) ==
-    /\ th[t].pc = "ret" /\ Upd(t, [th[t] EXCEPT !.pc = "idle", !.opi = @ + 1])
+    /\ th[t].pc = "ret" /\ Upd(t, [th[t] EXCEPT !.pc = "idle", !.opi = @ + 1, !.threw = FALSE, !.back = ""])
     /\ ev' = E(t, "ret", OpName[th[t].op + 1], 0, th[t].res, 0) /\ UNCHANGED <<vec, ext, alive, dl, gh>> /\ UC
 
 \* destruction of object x by thread t (user code; may re-enter the container: a nested size())
 DtorG(t, x) == [gh EXCEPT !.dbl = @ \/ x \in gh.destroyed, !.destroyed = @ \cup {x}, !.owned = @ \/ x \in ext, !.underlock = @ \/ dl = t,
-                          !.cbbad = @ \/ (cfg.cb /\ th[t].op = 2 /\ x \notin gh.cbd)]
+                          !.cbbad = @ \/ (cfg.cb /\ th[t].op = 2 /\ x \notin gh.cbd /\ ~th[t].threw)]
 
 Add(t) == LET x == th[t].o IN
     \/ /\ th[t].pc = "a1" /\ dl = 0 /\ dl' = t /\ vec' = Append(vec, x) /\ Upd(t, Pc(t, "a2"))
@@ -118,9 +120,14 @@ Destroy(t) == LET s == th[t].sel
                    THEN [th[t] EXCEPT !.pc = "s1", !.back = IF i < Len(s) THEN "cb" ELSE "dt", !.idx = IF i < Len(s) THEN i + 1 ELSE 1]
                    ELSE [th[t] EXCEPT !.pc = IF i < Len(s) THEN "cb" ELSE "dt", !.idx = IF i < Len(s) THEN i + 1 ELSE 1])
        /\ ev' = E(t, "cb", "obj", s[i], 0, 0) /\ UNCHANGED <<vec, ext, alive, dl>> /\ UC
+    \* C20: the callback throws: the remaining callbacks of the batch are skipped, the selected objects are destroyed while the
+    \* exception unwinds (still outside the lock), destroyObjects swallows the exception and reports the size it had computed
+    \/ /\ th[t].pc = "cb" /\ cfg.cbthrow
+       /\ Upd(t, [th[t] EXCEPT !.pc = "dt", !.idx = 1, !.threw = TRUE])
+       /\ ev' = E(t, "cbthrow", "obj", s[i], 0, 0) /\ UNCHANGED <<vec, ext, alive, dl, gh>> /\ UC
     \* destructors, one per selected object (user code; with reenter = 1 it calls size())
     \/ /\ th[t].pc = "dt" /\ alive' = alive \ {s[i]} /\ gh' = DtorG(t, s[i])
-       /\ LET nxt == IF i < Len(s) THEN "dt" ELSE (IF ClearOutsideLock THEN L(t, "x5", "ret") ELSE "x2b") IN
+       /\ LET nxt == IF i < Len(s) THEN "dt" ELSE IF th[t].threw THEN "ret" ELSE (IF ClearOutsideLock THEN L(t, "x5", "ret") ELSE "x2b") IN
           Upd(t, IF cfg.reenter = 1 /\ cfg.locked
                    THEN [th[t] EXCEPT !.pc = "s1", !.back = nxt, !.idx = IF i < Len(s) THEN i + 1 ELSE 1, !.sel = IF i < Len(s) THEN @ ELSE <<>>]
                    ELSE [th[t] EXCEPT !.pc = nxt, !.idx = IF i < Len(s) THEN i + 1 ELSE 1, !.sel = IF i < Len(s) THEN @ ELSE <<>>])
